@@ -220,12 +220,19 @@ impl<T> TransientSource<T> {
     /// your own event source's `process_events()`, and the source will be
     /// unregistered as needed after it exits.
     pub fn remove(&mut self) {
-        if let TransientSourceState::Disabled(_) = self.state {
+        match std::mem::take(&mut self.state) {
             // The source is not registered any more, so there is nothing left
             // to unregister: it can simply be dropped.
-            self.state = TransientSourceState::None;
-        } else {
-            self.state.replace_state(TransientSourceState::Remove);
+            TransientSourceState::Disabled(_) => (),
+            // A replacement was pending: it was never registered and can be
+            // dropped, but the old source still has to be unregistered.
+            TransientSourceState::Replace { old, .. } => {
+                self.state = TransientSourceState::Remove(old);
+            }
+            other => {
+                self.state = other;
+                self.state.replace_state(TransientSourceState::Remove);
+            }
         }
     }
 
@@ -240,13 +247,22 @@ impl<T> TransientSource<T> {
     /// your own event source's `process_events()`, and the sources will be
     /// registered and unregistered as needed after it exits.
     pub fn replace(&mut self, new: T) {
-        if let TransientSourceState::Disabled(_) = self.state {
+        match std::mem::take(&mut self.state) {
             // The old source is not registered any more, only the new one needs
             // to be registered.
-            self.state = TransientSourceState::Register(new);
-        } else {
-            self.state
-                .replace_state(|old| TransientSourceState::Replace { new, old });
+            TransientSourceState::Disabled(_) => {
+                self.state = TransientSourceState::Register(new);
+            }
+            // A replacement was already pending: it was never registered and is
+            // superseded, the source to unregister is still the old one.
+            TransientSourceState::Replace { old, .. } => {
+                self.state = TransientSourceState::Replace { new, old };
+            }
+            other => {
+                self.state = other;
+                self.state
+                    .replace_state(|old| TransientSourceState::Replace { new, old });
+            }
         }
     }
 }
